@@ -31,19 +31,27 @@
      - severity / validity: Error kinds invalidate, Warning kinds never do, by enumeration of the
        24 kinds (C07_severity_validity*, C07_error_kind_invalidates, C07_report_is_model_trace);
      - soundness of the analysis stage on a decidable class of clean event streams
-       (C07_clean_run_sound, C07_analysis_sound_partial).
+       (C07_clean_run_sound, C07_analysis_sound_partial);
+     - soundness from SOURCE TEXTS: on the text that the document printer of C01 makes of a document in the
+       printer class (Printer.doc_ok, Denote.adoc_ok) and in the warning-free class DenoteQuiet.quiet_doc, the
+       model of CooklangParser::parse (pull-parser model + decorated collector) returns a valid result, the
+       recipe the document denotes, and a report holding nothing but the `>>` deprecation notice - present
+       exactly when the document has a `>>` entry that is not a config entry, one label per such entry
+       (C07_printed_doc_sound; behind a front matter the report is empty: C07_printed_fm_doc_sound).
    Satisfiability of every hypothesis set and non-triviality of the clean class: the Examples of
    Proofs/DiagExamples.v (parser model run on the catalogue's constructs), collected in
    [C07_examples] at the end.
    Not proved (decided on every run by the monitor of checks/c07.py on the implementation):
-   soundness on ALL well-formed recipes (needs the printer/well-formedness of C01), and the lift of
-   the component lemmas to an arbitrary placement inside a document - see [C07_full_statement]. *)
+   soundness on well-formed recipes outside the printer class of C01 (free layouts; text mode, where the code
+   warns "Ignoring .. in text mode" by design), and the lift of the component lemmas to an arbitrary placement
+   inside a document - see [C07_full_statement]. *)
 From Coq Require Import ZArith.
 From CL Require Import Base.StrLemmas Model.Parser Model.Diag Proofs.DiagProofs.
 From CL Require Model.Analysis Proofs.DiagAnalysisProofs.
 From CL Require Import Model.EventBridge Model.AnalysisLabels Model.AnalysisDiag Proofs.DiagPlaced
   Proofs.DiagLabelSites Proofs.AnalysisSound.
 From CL Require Proofs.DiagExamples.
+From CL Require Model.Printer Model.Denote Model.DenoteQuiet Proofs.PrintedDocSound.
 Open Scope N_scope.
 
 (* ================================================================ validity, short circuit *)
@@ -268,6 +276,48 @@ Theorem C07_component_diagnostics_survive :
       end.
 Proof. exact ingredient_p_inv. Qed.
 Print Assumptions C07_component_diagnostics_survive.
+
+(* empty metadata key / value of an old-style `>>` line (metadata.rs:25-43).  "Empty" is
+   Text::is_text_empty: blanks only - comments contribute no text, so `>>[- k -]: v` has an empty key
+   and `>> k: -- later` an empty value.  Key: error labelled with the key position; value (when the
+   key is not empty): warning whose first label is the value position, second the key. *)
+Theorem C07_empty_metadata_key :
+  forall cfg s key v s',
+    metadata_entry cfg s = Done (Some (EvMetadata key v), s') -> is_text_empty key = true ->
+    In (mkdiag true D_EMPTY_META_KEY [text_span key]) (b_evs s').
+Proof. exact complete_empty_metadata_key. Qed.
+Print Assumptions C07_empty_metadata_key.
+
+Theorem C07_empty_metadata_value :
+  forall cfg s key v s',
+    metadata_entry cfg s = Done (Some (EvMetadata key v), s') ->
+    is_text_empty key = false -> is_text_empty v = true ->
+    In (mkdiag false D_EMPTY_META_VALUE [text_span v; text_span key]) (b_evs s').
+Proof. exact complete_empty_metadata_value. Qed.
+Print Assumptions C07_empty_metadata_value.
+
+(* for every token list: key tokens (those before the first `:`) that are all comments => the error,
+   at the position right after `>>`; value tokens (the rest of the line) that are all comments =>
+   the warning, at the position right after the `:` *)
+Theorem C07_empty_metadata_key_comment_only :
+  forall cfg s key v s',
+    metadata_entry cfg s = Done (Some (EvMetadata key v), s') ->
+    exists m s1 kts s2,
+      consume KMeta s = Done (Some m, s1) /\ until (fun k => tk_eqb k KColon) s1 = Done (Some kts, s2) /\
+      (forallb (fun tk => is_comment_kind (kind tk)) kts = true ->
+         In (mkdiag true D_EMPTY_META_KEY [(current_offset_of s1, current_offset_of s1)]) (b_evs s')).
+Proof. exact complete_comment_only_metadata_key. Qed.
+Print Assumptions C07_empty_metadata_key_comment_only.
+
+Theorem C07_empty_metadata_value_comment_only :
+  forall cfg s key v s',
+    metadata_entry cfg s = Done (Some (EvMetadata key v), s') -> is_text_empty key = false ->
+    exists c s3 vts s4,
+      consume_rest s3 = Done (vts, s4) /\ current_offset_of s3 = tend c /\ kind c = KColon /\
+      (forallb (fun tk => is_comment_kind (kind tk)) vts = true ->
+         In (mkdiag false D_EMPTY_META_VALUE [(tend c, tend c); text_span key]) (b_evs s')).
+Proof. exact complete_comment_only_metadata_value. Qed.
+Print Assumptions C07_empty_metadata_value_comment_only.
 
 (* ================================================================ completeness, analysis stage, error bit
    (Model/Analysis.v: "an error is reported"; the result then keeps its output and is not valid
@@ -956,11 +1006,90 @@ Theorem C07_analysis_sound_partial :
 Proof. exact analysis_sound. Qed.
 Print Assumptions C07_analysis_sound_partial.
 
+(* soundness from source texts.  [d] is a document (Model/Printer.v: `>>` lines, section lines, step blocks,
+   `>` blocks), [tp] its layout tape; [Printer.print_doc d tp] the text.  Hypotheses, all decidable on the printer's
+   input given the oracles:
+     Printer.doc_ok        the printer class of C01 (tokens keep their identity, blocks well formed, layout);
+     Denote.adoc_ok        the class of C01_parse_print_partial: nothing the analysis reports as an ERROR (bad mode
+                           value, dangling / conflicting reference, note or second quantity on a reference, bad
+                           intermediate reference, timer unit under ADVANCED_UNITS) and no switch to text mode;
+     DenoteQuiet.quiet_doc nothing it reports as a WARNING: unknown `[..]` config key, unaccepted value of a standard
+                           key / time override in a `>>` entry, alphanumeric text omitted in components mode,
+                           scaling lock without effect, redundant `+` / `&`, text against number between a
+                           reference and its definition, incompatible units between references (ADVANCED_UNITS).
+   Text mode is excluded by construction: there every component makes the code warn "Ignoring .. in text mode".
+   Conclusion, for every Unicode classification, extension set of the parser, extension record of the pass,
+   oracle and source text [input] given to the collector (in particular the printed text itself): the pipeline
+   model returns [res] with an output, the output is the recipe [Denote.denote] of the document, [res] is valid,
+   and the report is [notice_only n]: empty when no `>>` entry is an ordinary entry (n = 0), otherwise exactly
+   one diagnostic, a Warning of the analysis stage with n labels (the deprecation notice). *)
+Theorem C07_printed_doc_sound :
+  forall (ci_key : str -> str) (yaml_ok : str -> bool) (find_iq : str -> option (str * str))
+    (unit_class : str -> N) (input : str) (x : Analysis.aext)
+    (dc : dcfg) (yaml_err_index : str -> option N) (yaml_std_bad : str -> list str)
+    (yaml_has_key std_check : str -> str -> bool) (is_alnum : N -> bool) (unit_pq : str -> option N)
+    (U : N -> Lexer.ucls) (cfg : pcfg) (d : list Printer.block) (tp : Printer.dtape),
+  Printer.doc_ok U cfg d tp = true ->
+  Denote.adoc_ok ci_key find_iq unit_class x d = true ->
+  DenoteQuiet.quiet_doc ci_key x std_check is_alnum unit_pq d = true ->
+  exists (res : pass_result dstate) (st : dstate),
+    parse U cfg dstate
+      (astep ci_key yaml_ok find_iq unit_class input x Analysis.cfgF dc yaml_err_index yaml_std_bad yaml_has_key
+         std_check is_alnum unit_pq) afinish dinit (Printer.print_doc d tp) = Done res /\
+    pr_output res = Some st /\
+    Analysis.output (ds_a st) = Some (Denote.denote ci_key find_iq (Analysis.x_inline x) (Analysis.x_modes x) d) /\
+    is_valid res = true /\
+    PrintedDocSound.notice_only (length (DenoteQuiet.plain_metas x d)) (diags res).
+Proof. exact PrintedDocSound.printed_doc_sound. Qed.
+Print Assumptions C07_printed_doc_sound.
+
+(* ... and behind a YAML front matter ([Printer.print_fm_doc]: no `>>` entry in the document): with a front
+   matter that serde_yaml accepts, whose standard keys have accepted values and where `time` does not meet
+   `prep time` / `cook time` ([PrintedDocSound.fm_quiet], on the three YAML oracles), the report is empty *)
+Theorem C07_printed_fm_doc_sound :
+  forall (ci_key : str -> str) (yaml_ok : str -> bool) (find_iq : str -> option (str * str))
+    (unit_class : str -> N) (input : str) (x : Analysis.aext)
+    (dc : dcfg) (yaml_err_index : str -> option N) (yaml_std_bad : str -> list str)
+    (yaml_has_key std_check : str -> str -> bool) (is_alnum : N -> bool) (unit_pq : str -> option N)
+    (U : N -> Lexer.ucls) (cfg : pcfg) (y : str) (ft : Printer.fmtape) (d : list Printer.block) (tp : Printer.dtape),
+  Printer.fm_doc_ok U cfg y ft d tp = true ->
+  Denote.adoc_ok ci_key find_iq unit_class x d = true ->
+  DenoteQuiet.quiet_doc ci_key x std_check is_alnum unit_pq d = true ->
+  PrintedDocSound.fm_quiet yaml_ok yaml_std_bad yaml_has_key y = true ->
+  exists (res : pass_result dstate) (st : dstate),
+    parse U cfg dstate
+      (astep ci_key yaml_ok find_iq unit_class input x Analysis.cfgF dc yaml_err_index yaml_std_bad yaml_has_key
+         std_check is_alnum unit_pq) afinish dinit (Printer.print_fm_doc y ft d tp) = Done res /\
+    pr_output res = Some st /\
+    Analysis.output (ds_a st) = Some (Denote.denote ci_key find_iq (Analysis.x_inline x) (Analysis.x_modes x) d) /\
+    is_valid res = true /\ diags res = [].
+Proof. exact PrintedDocSound.printed_fm_doc_sound. Qed.
+Print Assumptions C07_printed_fm_doc_sound.
+
+(* what [notice_only] says, spelled out *)
+Theorem C07_notice_only_spec :
+  forall (n : nat) (ds : list sdiag),
+    PrintedDocSound.notice_only n ds <->
+    (n = 0%nat /\ ds = []) \/
+    (n <> 0%nat /\ exists w, ds = [w] /\ sd_sev w = SevWarning /\ sd_stage w = StAnalysis /\ length (sd_labels w) = n).
+Proof.
+  intros n ds. unfold PrintedDocSound.notice_only. destruct n as [|n']; split.
+  - intro H. left. auto.
+  - intros [[_ H]|[H _]]; [exact H|contradiction].
+  - intro H. right. split; [discriminate|exact H].
+  - intros [[H _]|[_ H]]; [discriminate|exact H].
+Qed.
+Print Assumptions C07_notice_only_spec.
+
 (* the hypotheses of the placement theorems are satisfiable and the clean class is not trivial: for
    each family the parser model is run on the construct of the catalogue, the collector on the events
    before it, and the state reached and the offending event satisfy the hypotheses (with the
    diagnostic that results, e.g. `@&zznowhere{}` -> Error [(0, 13)]); a 26-event recipe with front
-   matter, config entry, two sections, definitions, references, cookware and timers is clean *)
+   matter, config entry, two sections, definitions, references, cookware and timers is clean; a document
+   with four mode switches and one ordinary `>>` entry is in the three classes of C07_printed_doc_sound
+   (its printed text was replayed on the implementation: valid, the notice with one label), and each of
+   two documents with a redundant `+` / a letter omitted in components mode is in the class of C01 but
+   not in [quiet_doc] (the implementation warns) *)
 Definition C07_examples :=
   (DiagExamples.ex_dangling_reference, DiagExamples.ex_dangling_reference_cookware,
    DiagExamples.ex_new_ref_modifiers, DiagExamples.ex_intermediate_modifiers,
@@ -970,11 +1099,13 @@ Definition C07_examples :=
    DiagExamples.ex_conflicting_quantity_cookware, DiagExamples.ex_incompatible_units,
    DiagExamples.ex_timer_unit, DiagExamples.ex_timer_text_value, DiagExamples.ex_bad_mode_value,
    DiagExamples.ex_bad_front_matter, DiagExamples.ex_bad_front_matter_unlocated,
-   DiagExamples.ex_clean_stream, DiagExamples.ex_clean_stream_notice, DiagExamples.ex_unclean_stream).
+   DiagExamples.ex_clean_stream, DiagExamples.ex_clean_stream_notice, DiagExamples.ex_unclean_stream,
+   PrintedDocSound.Ex.ex_printed_doc, PrintedDocSound.Ex.ex_not_quiet).
 
 (* ================================================================ the full statement
    (not a theorem: decided per run by the monitor of checks/c07.py on the implementation, and -
-   for the parser's diagnostics - by the L-ev correspondence on the same inputs).
+   for the parser's diagnostics - by the L-ev correspondence on the same inputs; its first conjunct is
+   C07_printed_doc_sound / C07_printed_fm_doc_sound when [wf] is the class of those theorems).
    [wf cfg s]: s is a well-formed recipe for the extensions of cfg (the image of the printer of
    C01); [placed cfg s err sp]: s is a well-formed recipe into which one construct of the
    catalogue with documented severity [err] was spliced at byte span [sp]; [notice s d]: d is the
